@@ -68,4 +68,7 @@ let () =
   | "model" -> main_loop model
   | "spec" -> main_loop (fun fs -> let (c, o) = split fs in spec true c o)
   | "spec-weak" -> main_loop (fun fs -> let (c, o) = split fs in spec false c o)
+  | "class" ->   (* <local part hex> -> lweak_b, local_class, local_rfc_b : used to cross-check props/C14.py:local_class *)
+      main_loop (function [h] -> let l = bytes_of_hex h in
+                   Printf.sprintf "%b %b %b" (lweak_b false l) (local_class l) (local_rfc_b l) | _ -> "BADCASE")
   | _ -> prerr_endline "usage"; exit 2
